@@ -25,6 +25,7 @@
 #include <future>
 #include <queue>
 #include <random>
+#include <thread>
 #include <unordered_map>
 #include <vector>
 
@@ -279,6 +280,12 @@ public:
 
     for (unsigned i = 0; i != numLanes; ++i) {
       lanes[i]->join();
+    }
+
+    // Processes which released their lane are waited for on detached threads
+    // which use this object until they decrement the count; wait for them.
+    while (backgroundTaskCount.load() != 0) {
+      std::this_thread::yield();
     }
 
     {
